@@ -94,6 +94,30 @@ Theorem C11_value : forall kec cfg reg amount s w,
 Proof. exact register_value. Qed.
 Print Assumptions C11_value.
 
+(* "The configured registry contract": [reg] above is the address the registry object was
+   constructed with.  In the node (pkg/node/node.go: NewNode, source text extracted into
+   gen/Generated.v) the provider registry object is constructed exactly once, with
+   common.HexToAddress(opts.ProviderRegistryContract) and the node's evm client, the bidder
+   registry object with common.HexToAddress(opts.BidderRegistryContract); the handshake
+   (libp2p.Options.Register) and the provider RPC service get the provider registry object, the
+   preconfirmation handler (both branches) and the bidder RPC service the bidder registry
+   object.  Swapping addresses or objects there breaks this obligation. *)
+Theorem C11_configured_registry :
+  Generated.c11_node_provreg_addr = [bos "common.HexToAddress(opts.ProviderRegistryContract)"] /\
+  Generated.c11_node_bidreg_addr = [bos "common.HexToAddress(opts.BidderRegistryContract)"] /\
+  arg_of 0 Generated.c11_node_provreg_new_args = [bos "providerRegistryContractAddr"] /\
+  arg_of 1 Generated.c11_node_provreg_new_args = [bos "evmClient"] /\
+  arg_of 0 Generated.c11_node_bidreg_new_args = [bos "bidderRegistryContractAddr"] /\
+  arg_of 1 Generated.c11_node_bidreg_new_args = [bos "evmClient"] /\
+  map (prefixb (bos "provider_registrycontract.New(")) Generated.c11_node_provreg_obj = [true] /\
+  map (prefixb (bos "bidder_registrycontract.New(")) Generated.c11_node_bidreg_obj = [true] /\
+  map (containsb (bos " Register: providerRegistry, ")) (arg_of 0 Generated.c11_node_libp2p_args) = [true] /\
+  arg_of 3 Generated.c11_node_preconf_new_args = [bos "bidderRegistry"; bos "bidderRegistry"] /\
+  arg_of 1 Generated.c11_node_providerapi_args = [bos "providerRegistry"] /\
+  arg_of 2 Generated.c11_node_bidderapi_args = [bos "bidderRegistry"].
+Proof. exact node_wiring. Qed.
+Print Assumptions C11_configured_registry.
+
 (* The method names of the model are the ones found in /repo by the extractor
    (gen/Generated.v: the first argument of the one Pack -- and the one Unpack -- call in each of
    the three methods of each package): *)
@@ -152,7 +176,34 @@ Theorem C11_status_errors : forall kec cfg reg amount s w,
 Proof. exact register_errors. Qed.
 Print Assumptions C11_status_errors.
 
-(* Through the real evm client ([evm_wait]: a caller that starts waiting after the client's own
+(* Every answer of the client is covered.  The result is success, an error, or -- for exactly
+   one answer, a nil receipt returned without an error -- a crash (the code dereferences the
+   receipt).  That answer is outside the client's contract: evmclient.EvmClient.WaitForReceipt
+   returns [receipt.Receipt] of a monitor result whose Err is nil, and the monitor builds such a
+   result only around a non-nil receipt (harness/props/C11.json, level_note, gives the lines);
+   the checker reports a crash on any other answer as [panic-on-receipt]. *)
+Theorem C11_status_total : forall kec cfg reg amount s w,
+  match snd (register kec cfg reg amount s w) with
+  | Ok _ => exists h, s = SHash h /\ w = WReceipt 1
+  | Panic => exists h, s = SHash h /\ w = WNil
+  | Err _ => s = SErr \/ w = WErr \/ exists st, w = WReceipt st /\ st <> 1
+  end.
+Proof. exact register_total. Qed.
+Print Assumptions C11_status_total.
+
+(* Hence, for every answer the client can give: anything but a mined transaction with status 1
+   is reported as an error. *)
+Theorem C11_status_errors_all : forall kec cfg reg amount s w,
+  w <> WNil -> ~ (exists h, s = SHash h /\ w = WReceipt 1) ->
+  exists c, snd (register kec cfg reg amount s w) = Err c.
+Proof. exact register_errors_strong. Qed.
+Print Assumptions C11_status_errors_all.
+
+(* DEFINITIONAL.  [evm_wait late w] is [if late then WErr else w]: the statement below is
+   [C11_status] with that case distinction unfolded.  That the real EvmClient.WaitForReceipt
+   behaves like [evm_wait] (a late caller is told "tx not found") is NOT proved here; it is what
+   the correspondence class via-evmclient-write observes on the real client.
+   Through the real evm client ([evm_wait]: a caller that starts waiting after the client's own
    watcher consumed the receipt is told "tx not found"): success is reported exactly when the
    caller itself obtained the receipt and it carries status 1.  A receipt the caller did not
    get -- consumed earlier, dropped, never mined -- is an error, whatever the chain holds. *)
@@ -199,7 +250,18 @@ Theorem C11_rpc_refusals : forall kec cfg reg owner valid parsed s w a,
 Proof. exact svc_register_refusals. Qed.
 Print Assumptions C11_rpc_refusals.
 
-(* One registry object, any number of operations ([session]): the n-th check is answered from
+(* DEFINITIONAL -- read this before the next four theorems.  [session] is defined as
+   [map run_request]: the model has no state to carry from one operation to the next, so
+   C11_check_stateless, C11_check_history_independent, C11_register_stateless and
+   C11_getters_stateless restate the single-operation theorems at position n of a list.  They
+   say what statelessness MEANS for the property (each check re-reads the minimum; each stake
+   carries its own amount); they do not prove that the Go objects are stateless.  That is
+   established by observation only: the driver classes session-scripted, session-random,
+   via-evmclient(-random), concurrent-register run several operations on ONE registry object with
+   the chain's answers changing in between and compare every step with the single-operation
+   model and with the property checker (a cached minimum, a stale read served by the client and
+   a shared request object were each found this way).
+   One registry object, any number of operations ([session]): the n-th check is answered from
    the n-th pair of call results alone.  Whatever came before, it starts by reading the
    minimum again, and its answer is yes exactly when the values read at THAT call decode and
    minimum <= amount -- in particular a minimum that was raised, became unreadable or
